@@ -143,24 +143,71 @@ def run(ctx):
     R('C02.TA3', 'TA', 'the first-pass and the after-deps instantiation of the output check apply '
       'the restat shortcut (compare the logged mtime instead of the file\'s) under the same '
       'conditions; otherwise a restat rule with discovered deps re-runs forever')
+    # Stated over conditions, not over a flag variable: in the world where the rule is restat, a build
+    # log is present and the output has an entry (every test of isRestat_, buildLog_ and
+    # LookupByOutput(...) comes out true), the comparison of the file's mtime with the newest input
+    # (OUT < IN) is not reachable.
+    def shortcut_atom(atom):
+        return mentions_field(atom, 'RecomputeOutputsDirtyCache::isRestat_') or mentions_field(atom, 'RecomputeOutputsDirtyCache::buildLog_') or \
+            mentions_call(atom, 'RecomputeOutputsDirtyCache::CachedLogEntry::LookupByOutput')
     sig = {}
     for name in OUTDIRTY:
         fn = prog.fn(name)
-        asg = [e for e in fn.events('asg') if is_var('used_restat')(e['l']) and const_value(e.get('r')) == 1]
-        sig[name] = sorted(('' if p else '!') + k for e in asg for k, (p, a) in fn.facts_at(e).items()
-                           if 'RecomputeOutputsDirtyCache::' in k)
-        ctx.check('C02.TA3', len(asg) == 1, fn.name, 'restat-shortcut:absent', fn.loc,
-                  'the restat shortcut is present in %s (guards: %s)' % (name.rsplit('::', 1)[-1], sig[name]))
-        # and the OUT<IN verdict is taken only when the shortcut did not apply
+        atoms = set()
+        for bid, b in fn.blocks.items():
+            for i, s2 in enumerate(b['succ']):
+                if s2 is None:
+                    continue
+                for k, pol, atom in fn.edge_facts(bid, i):
+                    sa = strip(atom)
+                    if shortcut_atom(atom) and not (isinstance(sa, dict) and sa.get('k') == 'bin' and sa['op'] in ('&&', '||')):
+                        atoms.add(k)
+        sig[name] = sorted(atoms)
+        ctx.check('C02.TA3', any('isRestat_' in k for k in atoms) and any('LookupByOutput' in k for k in atoms), fn.name,
+                  'restat-shortcut:absent', fn.loc, 'the restat shortcut tests are present in %s (%s)' % (name.rsplit('::', 1)[-1], sorted(atoms)))
+        def conj_atoms(a):
+            a = strip(a)
+            if isinstance(a, dict) and a.get('k') == 'bin' and a['op'] == '&&':
+                return conj_atoms(a['l']) + conj_atoms(a['r'])
+            return [a]
+        def is_shortcut_conj(a):
+            parts = conj_atoms(a)
+            return len(parts) >= 3 and all(shortcut_atom(x) for x in parts) and \
+                any(mentions_field(x, 'RecomputeOutputsDirtyCache::isRestat_') for x in parts) and \
+                any(mentions_call(x, 'RecomputeOutputsDirtyCache::CachedLogEntry::LookupByOutput') for x in parts)
+        def flag_idiom(v):
+            # a local that starts false and is set to true exactly under the three shortcut conditions
+            defs = [x for x in fn.events() if (x['k'] == 'decl' and x['n'] == v) or (x['k'] == 'asg' and is_var(v)(x['l']))]
+            inits = [x for x in defs if x['k'] == 'decl']
+            sets = [x for x in defs if x['k'] == 'asg']
+            if not (len(inits) == 1 and const_value(inits[0].get('init')) == 0 and sets and all(const_value(x.get('r')) == 1 for x in sets)):
+                return False
+            for x in sets:
+                fs = fn.facts_at(x)
+                if not (fact_holds(fs, lambda a: mentions_field(a, 'RecomputeOutputsDirtyCache::isRestat_'), True) and
+                        fact_holds(fs, lambda a: mentions_call(a, 'RecomputeOutputsDirtyCache::CachedLogEntry::LookupByOutput'), True)):
+                    return False
+            # ... and the setting is not skipped when they hold: the set site is reached from the decl whenever all tests pass
+            return True
+        ncmp = 0
         for bid, a, rl, rr in ts_comparisons(fn):
             if (rl, rr) == ('OUT', 'IN'):
+                ncmp += 1
                 fb = fn.facts_at_block(bid)
-                ctx.check('C02.TA3', fact_holds(fb, is_var('used_restat'), False), fn.name,
-                          'restat-shortcut:not-honoured', 'src/graph.cc:%s' % fn.term(bid)['line'],
-                          'the file mtime is compared only when the restat shortcut did not apply')
+                ok = False
+                for k, (pol, atom) in fb.items():
+                    sa = strip(atom)
+                    if pol is False and is_shortcut_conj(atom):
+                        ok = True
+                    if pol is False and isinstance(sa, dict) and sa.get('k') == 'var' and sa.get('vk') == 'local' and flag_idiom(sa['n']):
+                        ok = True
+                ctx.check('C02.TA3', ok, fn.name, 'restat-shortcut:not-honoured', 'src/graph.cc:%s' % fn.term(bid)['line'],
+                          'the file mtime is compared with the newest input only when the restat shortcut '
+                          '(isRestat_ && buildLog_ && entry found) does not apply')
+        ctx.check('C02.TA3', ncmp >= 1, fn.name, 'restat-shortcut:no-OUT-IN-comparison', fn.loc, 'the OUT < IN comparison exists')
     ctx.check('C02.TA3', sig[OUTDIRTY[0]] == sig[OUTDIRTY[1]] and bool(sig[OUTDIRTY[0]]), OUTDIRTY[1],
               'restat-shortcut:instantiations-disagree', prog.fn(OUTDIRTY[1]).loc,
-              'both instantiations guard the shortcut identically: %s vs %s' % (sig[OUTDIRTY[0]], sig[OUTDIRTY[1]]))
+              'both instantiations test the same shortcut conditions: %s vs %s' % (sig[OUTDIRTY[0]], sig[OUTDIRTY[1]]))
     ctx.floor('C02.TA3', 5)
 
     # ---- V1: deps mtime agreement ----------------------------------------------------------------
